@@ -17,13 +17,20 @@
 //     Lazily-filled package-level state (type-name caches, sync.Once-like
 //     globals) is therefore first touched concurrently. No solo baseline has
 //     been computed yet: that would warm it.
+//
 //  2. solo baselines (each observer alone on a fresh error), and comparison of
 //     every cold-phase result against them.
+//
 //  3. rounds: every round builds brand-new shared objects for all standard
 //     shapes and releases all goroutines on them at once (start gate per
 //     round), each goroutine with its own rotation of the observers: state
 //     that is lazily initialised per error VALUE is cold in every round.
 //     Reference results come from twin objects, never from a shared one.
+//
+//  4. stampede: for each observer that formats or encodes, 48 goroutines are
+//     released together and ALL run that one observer on the shapes whose
+//     rendering nests formatting, so that far more calls are in flight at
+//     one instant than any other phase produces.
 //
 // The goroutines share no harness state while they run (results go to
 // per-goroutine slices): harness synchronisation would add happens-before
@@ -47,6 +54,17 @@ import (
 )
 
 const goroutines = 16
+
+// stampede phase: goroutines per observer, iterations, observers, shapes.
+const (
+	stampedeGoroutines = 48
+	stampedeIters      = 3
+)
+
+var (
+	stampedeObservers = map[string]bool{"Error": true, "v": true, "plusv": true, "redact": true, "Encode": true, "SafeDetails": true, "Sentry": true}
+	stampedeShapes    = map[string]bool{"barrier": true, "secondary": true, "join": true, "decoded-wrapf": true, "local-annot": true}
+)
 
 type mkey struct {
 	shape, obs string
@@ -197,6 +215,55 @@ func main() {
 			}
 		}
 	}
+	// ---- 4. stampede: many goroutines inside the SAME formatting/encoding
+	// observer at the same instant, on shapes whose rendering nests
+	// formatting (a barrier's masked error, a secondary error, join branches,
+	// opaque wrappers, safe-detail formatting). Process-global state that is
+	// correct for a few concurrent calls but not for many (in-flight
+	// counters, bounded pools, …) only shows under such a load; it is no data
+	// race, only the comparison with the twin reference can see it.
+	var stShapes []int
+	for i, sh := range std {
+		if stampedeShapes[sh.Name] {
+			stShapes = append(stShapes, i)
+		}
+	}
+	for oi, o := range driver.Observers {
+		if !stampedeObservers[o.Name] {
+			continue
+		}
+		objs := make([]error, ns)
+		for _, i := range stShapes {
+			objs[i] = std[i].Build()
+		}
+		start := make(chan struct{})
+		bad := make([][]badResult, stampedeGoroutines)
+		for g := 0; g < stampedeGoroutines; g++ {
+			wg.Add(1)
+			go func(g int) {
+				defer wg.Done()
+				<-start
+				for it := 0; it < stampedeIters; it++ {
+					for k := range stShapes {
+						si := stShapes[(k+g)%len(stShapes)]
+						s, p := driver.Guard(o, objs[si])
+						if s != solo[std[si]][oi] && len(bad[g]) < 20 {
+							bad[g] = append(bad[g], badResult{si, oi, result{s, p}})
+						}
+					}
+				}
+			}(g)
+		}
+		close(start)
+		wg.Wait()
+		sum.StampedeCalls += int64(stampedeGoroutines * stampedeIters * len(stShapes))
+		for g := range bad {
+			for _, b := range bad[g] {
+				note(std[b.si], o, b.got, solo[std[b.si]][b.oi])
+			}
+		}
+	}
+	sum.StampedeGoroutines = stampedeGoroutines
 	for _, m := range mism {
 		sum.Mismatches = append(sum.Mismatches, *m)
 	}
